@@ -1,4 +1,5 @@
 """C06 — logs never leak between concurrently running tests or threads. Props/C06.v; ProtocolP.v, AttachP.v."""
+import json
 import os
 import shutil
 import sys
@@ -140,6 +141,83 @@ def write_window_probe(binary=False):
         shutil.rmtree(tmp, ignore_errors=True)
 
 
+def abandoned_attachment_probe(binary=False):
+    """Thread A is inside `with prepare_attachment(...)` when thread B saves an attachment of the same name; A's block then
+    fails (the attachment is abandoned, the exception reaches the caller); a third attachment of the same name is saved afterwards.
+    Every attachment the report references is a file of its own holding what its emitter wrote.  Returns (ok, detail)."""
+    import lemoncheesecake.session as lcc_session
+    from lemoncheesecake.session import Session, _Cursor
+    from lemoncheesecake.events import SyncEventManager
+    from lemoncheesecake.reporting import Report, ReportLocation
+    tmp = tempfile.mkdtemp(prefix="lccverif_abandon_")
+    try:
+        em = SyncEventManager.load()
+        recorded = []
+        em.subscribe_to_event("log_attachment", lambda e: recorded.append((e.attachment_description, e.attachment_path)))
+        session = Session(em, tmp, Report())
+        Session._instance = session
+        inside, release, errors, seen = threading.Event(), threading.Event(), {}, {}
+        content = {"B": "B" * 3000, "C": "C" * 2000}
+        prepare = lcc_session.prepare_image_attachment if binary else lcc_session.prepare_attachment
+
+        def thread_a():
+            session.cursor = _Cursor(ReportLocation.in_test_session_setup())
+            session.set_step("step of A")
+            try:
+                with prepare("response.json", "by A") as path:
+                    seen["A"] = path
+                    with open(path, "w") as fh:
+                        fh.write("partial")
+                    inside.set()
+                    release.wait(10)
+                    raise ValueError("the content could not be produced")
+            except ValueError:
+                pass
+            except BaseException as e:      # noqa: BLE001
+                errors["A"] = "%s: %s" % (type(e).__name__, e)
+
+        def saver(name):
+            session.cursor = _Cursor(ReportLocation.in_test_session_setup())
+            session.set_step("step of %s" % name)
+            try:
+                lcc_session.save_attachment_content(content[name], "response.json", "by %s" % name)
+            except BaseException as e:      # noqa: BLE001
+                errors[name] = "%s: %s" % (type(e).__name__, e)
+        a = threading.Thread(target=thread_a)
+        a.start()
+        if not inside.wait(10):
+            release.set()
+            a.join(10)
+            return None, "thread A never got inside prepare_attachment %s" % errors
+        b = threading.Thread(target=saver, args=("B",))
+        b.start()
+        b.join(10)
+        release.set()
+        a.join(10)
+        c = threading.Thread(target=saver, args=("C",))
+        c.start()
+        c.join(10)
+        if errors:
+            return False, "saving an attachment raised around an abandoned attachment of the same name: %s" % errors
+        if sorted(d for d, _ in recorded) != ["by B", "by C"]:
+            return False, "attachments recorded: %s instead of those of B and C" % (recorded,)
+        if len(set(rel for _, rel in recorded)) != 2:
+            return False, "two attachments of the report are the same file: %s" % (recorded,)
+        for desc, rel in recorded:
+            who = desc[-1]
+            path = os.path.join(tmp, rel)
+            if not os.path.exists(path):
+                return False, "the attachment %s of thread %s does not exist on disk" % (rel, who)
+            data = open(path).read()
+            if data != content[who]:
+                return False, "the attachment %s of thread %s does not hold what it wrote (%d bytes, begins with %r)" % (
+                    rel, who, len(data), data[:3])
+        return True, recorded
+    finally:
+        Session._instance = None
+        shutil.rmtree(tmp, ignore_errors=True)
+
+
 def attached_file_probe(image=False):
     """save_attachment_file / save_image_file of a scratch file that its owner rewrites IN PLACE afterwards (two tests dumping into
     the same scratch file): the attachment the report references keeps what was attached.  Returns (ok, detail)."""
@@ -271,6 +349,17 @@ def check(run):
         elif not ok:
             run.violation("attachment-content-changes-with-its-source", str(detail), {"probe": "attached_file_probe", "image": image})
     for binary in (False, True):
+        run.evaluations += 1
+        run.count("abandoned_attachment_probes")
+        try:
+            ok, detail = abandoned_attachment_probe(binary)
+        except Exception as e:      # noqa: BLE001
+            ok, detail = None, "%s: %s" % (type(e).__name__, e)
+        if ok is None:
+            run.tie_broken("the abandoned-attachment probe could be run", detail=str(detail))
+        elif not ok:
+            run.violation("attachment-shared-after-an-abandoned-one", str(detail), {"probe": "abandoned_attachment_probe", "image": binary})
+    for binary in (False, True):
         ok, detail = write_window_probe(binary)
         run.evaluations += 1
         run.count("write_window_probes")
@@ -301,4 +390,17 @@ def check(run):
                             "non-trivial = a run with at least one user thread and more than one worker")
 
 
-replay = propcommon.make_replay(runoracle.c06_oracle)
+_case_replay = propcommon.make_replay(runoracle.c06_oracle)
+
+
+def replay(path):
+    rp = json.load(open(path)).get("replay") or {}
+    probes = {"abandoned_attachment_probe": lambda: abandoned_attachment_probe(rp.get("image", False)),
+              "attached_file_probe": lambda: attached_file_probe(rp.get("image", False)),
+              "write_window_probe": lambda: write_window_probe(rp.get("binary", False)),
+              "lock_probe": lock_probe}
+    if rp.get("probe") in probes:
+        ok, detail = probes[rp["probe"]]()
+        print(json.dumps({"probe": rp["probe"], "ok": ok, "detail": str(detail)}, indent=1))
+        return 0 if ok else 1
+    return _case_replay(path)
